@@ -144,18 +144,30 @@ def callStatic (b : Beh) (n : SNode) (args : List Val) (st : St) : List Val × S
   let r := callStaticRaw b n args st
   (retypeErr n r.1, r.2)
 
-/-- `runStaticChain` over `baseValues`; the Bool says whether it ran to the end -/
+/-- after a fallible static injector failed the remaining injectors are skipped; the remaining
+    literal values still take effect, in order -/
+def applyLitsV (m : Maps) : List SNode → VC → VC
+  | [], v => v
+  | n :: rest, v =>
+    match n.lit with
+    | some x => applyLitsV m rest (wrOuts m.d v n.outs [x])
+    | none => applyLitsV m rest v
+
+/-- `runStaticChain` over `baseValues`: literal values and static injectors in listed order -/
 def execStatic (b : Beh) (m : Maps) : List SNode → VC → St → VC × St
   | [], v, st => (v, st)
   | n :: rest, v, st =>
-    match rdIns m.d v n.ins with
-    | none => (v, st.push (.bad n.id))
-    | some args =>
-      let r := callStatic b n args st
-      if n.fallible && isErr (r.1.getD n.errIdx (zeroV 0)) then
-        -- zero what the skipped injectors would have provided, then store this injector's results
-        (wrOuts m.d (zeroSlots m.d v n.zero) n.outs r.1, r.2)
-      else execStatic b m rest (wrOuts m.d v n.outs r.1) r.2
+    match n.lit with
+    | some x => execStatic b m rest (wrOuts m.d v n.outs [x]) st
+    | none =>
+      match rdIns m.d v n.ins with
+      | none => (v, st.push (.bad n.id))
+      | some args =>
+        let r := callStatic b n args st
+        if n.fallible && isErr (r.1.getD n.errIdx (zeroV 0)) then
+          -- zero what the skipped injectors would have provided, then store this injector's results
+          (applyLitsV m rest (wrOuts m.d (zeroSlots m.d v n.zero) n.outs r.1), r.2)
+        else execStatic b m rest (wrOuts m.d v n.outs r.1) r.2
 
 /-! ### a bound chain as a state machine -/
 
